@@ -80,6 +80,25 @@ def run_item(item):
                     obls.append(dict(name=f"{item['pid']}:{c.target.replace('btc_hd_wallet.', '')}#bounded.standin",
                                      kind="bounded", verdict="HELD", evaluations=b["evaluations"], bound=b["bound"],
                                      backend="bounded", target=c.target))
+            elif item.get("tier") == "thorough" and not hasattr(c, "loops"):
+                # thorough tier: the same contract object evaluated at run time around the REAL function on a
+                # boundary corpus + seeded samples (independent of the symbolic engine; labelled bounded)
+                from pyvc.bounded import bounded_contract
+                kf = [k["clause"] for k in load_known().get("known", []) if k.get("target") == c.target]
+                try:
+                    b = bounded_contract(c, item.get("seed", 0), n=400, budget_s=12, ignore=kf)
+                except Exception as ex:      # contracts without a concrete mode (symbolic-only inputs)
+                    b = dict(verdict="HELD", evaluations=0, bound="no concrete mode: " + type(ex).__name__)
+                if b["verdict"] == "VIOLATED":
+                    failed = (b["replay"].get("failed") or ["bounded"])
+                    obls.append(dict(name=f"{item['pid']}:{c.target.replace('btc_hd_wallet.', '')}#bounded.{failed[0]}",
+                                     kind="bounded", verdict="VIOLATED", contract=item["spec"], target=c.target,
+                                     clause=failed[0], model=b["model"], stubs=b["stubs"], confirmed=True,
+                                     replay=b["replay"], evaluations=b["evaluations"], bound=b["bound"], backend="bounded"))
+                elif b.get("evaluations"):
+                    obls.append(dict(name=f"{item['pid']}:{c.target.replace('btc_hd_wallet.', '')}#bounded.runtime_contract[{item['spec'].split(':')[1]}]",
+                                     kind="bounded", verdict="HELD", evaluations=b["evaluations"], bound=b["bound"],
+                                     backend="bounded", target=c.target))
             from pyvc.engine import SOURCE
             mod, qn = _split_target(c.target)
             meta = dict(target=c.target, paths=r["paths"], calls=r["calls"], wall=r["wall"],
